@@ -1268,5 +1268,199 @@ theorem stepAt_err_iff (mem : Mem) (p : Nat) (len : Option Nat) :
                   · exact absurd h hz
                 · exact h.2.2.2
 
+
+/-! ### structure of `scan` -/
+
+theorem lenDec_lenDec (len : Option Nat) (a b : Nat) : lenDec (lenDec len a) b = lenDec len (a + b) := by
+  cases len with
+  | none => rfl
+  | some l => simp only [lenDec, Option.map]; congr 1; omega
+
+theorem lenDec_zero (len : Option Nat) : lenDec len 0 = len := by
+  cases len <;> simp [lenDec]
+
+theorem sumPos_bytes : ∀ (cs : List Ch) (p : Pos), (sumPos p cs).bytes = p.bytes + bytesOf cs := by
+  intro cs
+  induction cs with
+  | nil => intro p; simp [sumPos, bytesOf]
+  | cons c cs ih => intro p; simp only [sumPos, bytesOf, ih, Pos.adv]; omega
+
+theorem bytesOf_append (a b : List Ch) : bytesOf (a ++ b) = bytesOf a + bytesOf b := by
+  induction a with
+  | nil => simp [bytesOf]
+  | cons c a ih => simp only [List.cons_append, bytesOf, ih]; omega
+
+theorem scan_mono (mem : Mem) : ∀ (fuel str : Nat) (len : Option Nat) (x : List Ch × Tail),
+    scan mem fuel str len = some x → scan mem (fuel + 1) str len = some x := by
+  intro fuel
+  induction fuel with
+  | zero => intro str len x h; simp [scan] at h
+  | succ f ih =>
+    intro str len x h
+    rw [scan] at h ⊢
+    split at h
+    · exact h
+    · exact h
+    · rename_i n cp w hi hst
+      split at h
+      · cases h
+      · rename_i cs t hsc
+        rw [ih _ _ _ hsc]; exact h
+
+theorem scan_mono_le (mem : Mem) (f g str : Nat) (len : Option Nat) (x : List Ch × Tail) (hfg : f ≤ g)
+    (h : scan mem f str len = some x) : scan mem g str len = some x := by
+  induction g with
+  | zero => have : f = 0 := by omega
+            subst this; exact h
+  | succ g ih =>
+    rcases Nat.lt_or_ge f (g + 1) with hlt | hge
+    · exact scan_mono mem g str len x (ih (by omega))
+    · have : f = g + 1 := by omega
+      subst this; exact h
+
+/-- The characters after a prefix `a` of the scan are the scan from where `a` ends. -/
+theorem scan_append (mem : Mem) : ∀ (a : List Ch) (fuel str : Nat) (len : Option Nat) (b : List Ch) (t : Tail),
+    scan mem fuel str len = some (a ++ b, t) →
+    scan mem fuel (str + bytesOf a) (lenDec len (bytesOf a)) = some (b, t) := by
+  intro a
+  induction a with
+  | nil => intro fuel str len b t h; simpa [bytesOf, lenDec_zero] using h
+  | cons c a ih =>
+    intro fuel str len b t h
+    cases fuel with
+    | zero => simp [scan] at h
+    | succ f =>
+      rw [scan] at h
+      split at h
+      · injection h with h; injection h with h1 _; cases h1
+      · injection h with h; injection h with h1 _; cases h1
+      · rename_i n cp w hi hst
+        split at h
+        · cases h
+        · rename_i cs t' hsc
+          injection h with h; injection h with h1 h2
+          simp only [List.cons_append, List.cons.injEq] at h1
+          obtain ⟨hc, hcs⟩ := h1
+          subst hc; subst h2; subst hcs
+          have := ih f (str + n) (lenDec len n) b t' hsc
+          simp only [bytesOf]
+          rw [lenDec_lenDec] at this
+          have := scan_mono mem f _ _ _ this
+          rwa [Nat.add_assoc] at this
+
+/-- The head of the scan is what `stepAt` finds. -/
+theorem scan_head (mem : Mem) (fuel str : Nat) (len : Option Nat) (c : Ch) (cs : List Ch) (t : Tail)
+    (h : scan mem fuel str len = some (c :: cs, t)) :
+    ∃ hi, stepAt mem str len = .ch c.n c.cp c.w hi := by
+  cases fuel with
+  | zero => simp [scan] at h
+  | succ f =>
+    rw [scan] at h
+    split at h
+    · injection h with h; injection h with h1 _; cases h1
+    · injection h with h; injection h with h1 _; cases h1
+    · rename_i n cp w hi hst
+      split at h
+      · cases h
+      · injection h with h; injection h with h1 _
+        injection h1 with hc _
+        subst hc
+        exact ⟨hi, hst⟩
+
+/-- How the scan ends. -/
+theorem scan_nil (mem : Mem) (fuel str : Nat) (len : Option Nat) (t : Tail)
+    (h : scan mem fuel str len = some ([], t)) :
+    (t = .eof → ∃ hi, stepAt mem str len = .stop hi) ∧ (t = .err → ∃ hi, stepAt mem str len = .err hi) := by
+  cases fuel with
+  | zero => simp [scan] at h
+  | succ f =>
+    rw [scan] at h
+    split at h
+    · rename_i hi hst
+      injection h with h; injection h with _ h2; subst h2
+      exact ⟨fun _ => ⟨hi, hst⟩, fun e => (nomatch e)⟩
+    · rename_i hi hst
+      injection h with h; injection h with _ h2; subst h2
+      exact ⟨fun e => (nomatch e), fun _ => ⟨hi, hst⟩⟩
+    · split at h
+      · cases h
+      · injection h with h; injection h with h1 _; cases h1
+
+theorem scan_end (mem : Mem) (fuel str : Nat) (len : Option Nat) (cs : List Ch) (t : Tail)
+    (h : scan mem fuel str len = some (cs, t)) :
+    (t = .eof → ∃ hi, stepAt mem (str + bytesOf cs) (lenDec len (bytesOf cs)) = .stop hi) ∧
+    (t = .err → ∃ hi, stepAt mem (str + bytesOf cs) (lenDec len (bytesOf cs)) = .err hi) := by
+  have := scan_append mem cs fuel str len [] t (by simpa using h)
+  exact scan_nil mem fuel _ _ t this
+
+theorem stepAt_ch_len (mem : Mem) (str l n cp hi : Nat) (w : Int)
+    (h : stepAt mem str (some l) = .ch n cp w hi) : n ≤ l := by
+  have hb : ReadBound mem str (some l) (str + l) := by simp [ReadBound]
+  have := stepAt_bound mem str (some l) (str + l) hb
+  rw [h] at this
+  simp only [ReadBound, lenDec, Option.map] at this
+  by_cases hn : n ≤ l
+  · exact hn
+  · omega
+
+theorem scan_bytes_le (mem : Mem) : ∀ (fuel str l : Nat) (cs : List Ch) (t : Tail),
+    scan mem fuel str (some l) = some (cs, t) → bytesOf cs ≤ l := by
+  intro fuel
+  induction fuel with
+  | zero => intro str l cs t h; simp [scan] at h
+  | succ f ih =>
+    intro str l cs t h
+    rw [scan] at h
+    split at h
+    · injection h with h; injection h with h1 _; subst h1; simp [bytesOf]
+    · injection h with h; injection h with h1 _; subst h1; simp [bytesOf]
+    · rename_i n cp w hi hst
+      split at h
+      · cases h
+      · rename_i cs' t' hsc
+        injection h with h; injection h with h1 _; subst h1
+        have h1 := stepAt_ch_len mem str l n cp hi w hst
+        simp only [lenDec, Option.map] at hsc
+        have h2 := ih _ _ _ _ hsc
+        simp only [bytesOf]; omega
+
+/-! ### `clusters` is the inverse of flattening well-formed graphemes -/
+
+theorem clusters_of_wf : ∀ (gs : List (List Ch)), (∀ g ∈ gs, IsCluster g) → (∀ g ∈ gs.tail, Spacing g) →
+    clusters gs.flatten = gs := by
+  intro gs
+  induction gs with
+  | nil => intro _ _; rfl
+  | cons g gs ih =>
+    intro hcl hsp
+    obtain ⟨c, z, rfl, hc, hz⟩ := hcl g (by simp)
+    have ihgs : clusters gs.flatten = gs :=
+      ih (fun x hx => hcl x (by simp [hx])) (fun x hx => hsp x (by
+        simp only [List.tail_cons]; exact List.mem_of_mem_tail hx))
+    -- peel the zero-width tail `z` first
+    have key : ∀ (z : List Ch), (∀ x ∈ z, x.w = 0) → ∀ (c : Ch),
+        clusters ((c :: z) ++ gs.flatten) = (c :: z) :: gs := by
+      intro z
+      induction z with
+      | nil =>
+        intro _ c
+        simp only [List.cons_append, List.nil_append]
+        rw [clusters, ihgs]
+        cases gs with
+        | nil => rfl
+        | cons g' gs' =>
+          obtain ⟨d, r, e, hd⟩ := hsp g' (by simp)
+          subst e
+          simp [hd]
+      | cons y z ihz =>
+        intro hz c
+        have hy : y.w = 0 := hz y (by simp)
+        have := ihz (fun x hx => hz x (by simp [hx])) y
+        simp only [List.cons_append] at this ⊢
+        rw [clusters, this]
+        have : ¬ (y.w > 0) := by omega
+        simp [this]
+    simpa using key z hz c
+
 end Utf8
 end Tickit
